@@ -96,14 +96,14 @@ def verdict(contract, module, env, outcome):
                 return 'model-violates-requires', [r]
         if outcome['kind'] == 'return':
             ev['result'] = outcome['value']
-            if contract.yield_key:
+            if contract.yield_key and not only:
                 ks = []
                 for c in outcome['value']:
                     ks.append(eval(contract.yield_key, dict(ev, c=c)))
                 ev['YKEYS'] = set(ks)
                 if len(set(ks)) != len(ks):
                     violated.append('yielded keys not pairwise distinct: ' + contract.yield_key)
-            for e in contract.yield_each:
+            for e in ([] if only else contract.yield_each):
                 for c in outcome['value']:
                     if not eval(e, dict(ev, c=c)):
                         violated.append('yielded element violates: ' + e)
